@@ -1,7 +1,7 @@
 """
 C15 - DHT values are stored only for authorised writers and read back authentic.
 
-Three bounded-exhaustive parts, all on the real code, all compared with mc/ref/c15_dhtstore.py:
+Four bounded-exhaustive parts, all on the real code, all compared with mc/ref/c15_dhtstore.py:
 
  (1) "storage":   explicit-state BFS over put / advance-time / clean histories of the real ``ipv8.dht.storage.Storage``
                   on the virtual clock (per-put lifetimes, versions, content-addressed and signer-addressed slots,
@@ -12,6 +12,8 @@ Three bounded-exhaustive parts, all on the real code, all compared with mc/ref/c
                   After every transition S's storage is compared with the reference and R runs ``find_values``.
  (3) "reader":    every pair of (honest responder contents, malicious responder contents) up to a list length; the
                   real reader's ``find_values`` report is compared with what actually reached it on the wire.
+ (4) "store-peer": every single store-peer-request (requester x token x target mid x 0-2 rotations) against a real
+                  ``DHTDiscoveryCommunity``: registered only with a valid token and only under the requester's mid.
 """
 from __future__ import annotations
 
@@ -21,7 +23,14 @@ import struct
 import time
 
 from ipv8.dht.community import DHTCommunity
-from ipv8.dht.payload import FindRequestPayload, FindResponsePayload, SignedStrPayload, StoreRequestPayload
+from ipv8.dht.discovery import DHTDiscoveryCommunity
+from ipv8.dht.payload import (
+    FindRequestPayload,
+    FindResponsePayload,
+    SignedStrPayload,
+    StorePeerRequestPayload,
+    StoreRequestPayload,
+)
 from ipv8.dht.storage import Storage
 from ipv8.messaging.payload_headers import BinMemberAuthenticationPayload
 
@@ -143,7 +152,6 @@ class StorageModel(core.BfsModel):
             w.found += problems
             actual = entries.get(slot)
             if actual not in allowed:
-                new = allowed[0] if old is None or version >= old.version else None
                 if actual is None:
                     cls = "put:value-not-stored"
                 elif old is not None and version < old.version and actual.version == version:
@@ -152,7 +160,6 @@ class StorageModel(core.BfsModel):
                     cls = "put:newer-version-ignored"
                 else:
                     cls = "put:unexpected-slot-content"
-                del new
                 w.found.append((f"storage:{cls}", f"{ev}: slot {slot} holds {actual}, allowed {allowed}; "
                                                   f"storage now {self.listing(w)}"))
             for s in set(entries) | set(w.ref.entries):
@@ -160,6 +167,8 @@ class StorageModel(core.BfsModel):
                     w.found.append(("storage:put-disturbs-other-entry",
                                     f"{ev}: slot {s} changed from {w.ref.entries.get(s)} to {entries.get(s)}"))
             w.ref.entries = entries
+            return ("put", "absent" if old is None else "newer" if version > old.version else
+                    "equal" if version == old.version else "older", actual == allowed[0])
         elif kind == "clean":
             verdict = w.ref.maintenance(now())
             before = self.listing(w)
@@ -181,6 +190,7 @@ class StorageModel(core.BfsModel):
             for slot in set(entries) - set(verdict):
                 w.found.append(("storage:clean-creates-value", f"clean(): {slot} appeared"))
             w.ref.entries = entries
+            return ("clean", tuple(sorted(verdict.values())), len(verdict) - len(entries))
         return None
 
     def digest(self, w: StorageWorld):  # noqa: ANN201
@@ -494,11 +504,13 @@ class CWorld:
         self.ref_store.entries = after
         applied = after != before
         self.counts["stores_applied" if applied else "stores_refused"] += 1
-        return ("applied" if applied else "refused") + ("+ack" if acked else "")
+        return f"{x}/{token_choice}/{variant}: token {verdict} ({why}) -> " + ("applied" if applied else "refused") + \
+            ("+ack" if acked else "")
 
     def apply(self, ev) -> str | None:  # noqa: ANN001
         kind = ev[0]
         out = None
+        runs0 = (self.counts["maintenance_runs"], self.counts["rotations"], len(self.ref_store.entries))
         if kind == "tok":
             self.obtain_token(ev[1])
         elif kind == "st":
@@ -522,6 +534,9 @@ class CWorld:
             e = self.net.loop.exceptions[0]
             self.found.append((f"loop-exception:{type(e.get('exception')).__name__}", str(e)[:400]))
             self.net.loop.exceptions.clear()
+        if out is None:
+            out = (kind, self.counts["maintenance_runs"] - runs0[0], self.counts["rotations"] - runs0[1],
+                   runs0[2] - len(self.ref_store.entries))
         return out
 
     # -- the reader ------------------------------------------------------------------------------------------------
@@ -736,12 +751,94 @@ def reader_cases(max_h: int, max_x: int) -> list:
 
 
 # =====================================================================================================================
+# part 4: store-peer requests (DHTDiscoveryCommunity): bound to a valid token and to the requester's own mid
+# =====================================================================================================================
+
+def store_peer_case(seed: int, x: str, token_choice: str, target_choice: str, rotations: int) -> tuple[list, tuple]:
+    net = simnet.World(("c15p", seed))
+    try:
+        idx = fixtures.rotate(seed, 3)
+        nodes = {n: net.add_node(n, idx[i]) for i, n in enumerate("SAM")}
+        ov = {"S": nodes["S"].add_overlay(DHTDiscoveryCommunity), "A": nodes["A"].add_overlay(DHTCommunity),
+              "M": nodes["M"].add_overlay(DHTCommunity)}
+        for n in "AM":
+            ov[n].walk_to(nodes["S"].address)
+        net.flush()
+        s_ov, s_ep, s_addr = ov["S"], nodes["S"].endpoint, nodes["S"].address
+        who = {"A": (ov["A"], nodes["A"].address), "M": (ov["M"], nodes["M"].address),
+               "AM": (ov["A"], nodes["M"].address)}
+        tokens = ref.RefTokens()
+        held: dict[str, bytes] = {}
+        ident = 9000
+        for y, (o, src) in who.items():
+            ident += 1
+            n0 = len(net.wire_log)
+            net.inject(src, s_addr, o.ezr_pack(FindRequestPayload.msg_id,
+                                               FindRequestPayload(ident, src, o.my_peer.mid, 0, True)))
+            net.flush()
+            for dg in net.wire_log[n0:]:
+                if dg.sender is s_ep and tuple(dg.dst) == tuple(src) and dg.data[22] == FindResponsePayload.msg_id:
+                    off = CWorld.body_offset(dg.data)
+                    if struct.unpack_from(">I", dg.data, off)[0] == ident:
+                        held[y] = dg.data[off + 4:off + 24]
+                        tokens.issue(held[y], tuple(src), o.my_peer.public_key.key_to_bin(), now())
+        if len(held) != len(who):
+            return [("harness:no-token", f"store-peer world: tokens only for {sorted(held)}")], ()
+        for _ in range(rotations):
+            net.run_for(ROTATE_S)        # token_maintenance runs every 300 s
+            tokens.rotate()
+        o, src = who[x]
+        pk = o.my_peer.public_key.key_to_bin()
+        token = RANDOM_TOKEN if token_choice == "rnd" else held[x if token_choice == "own" else token_choice]
+        target = o.my_peer.mid if target_choice == "own" else ov["M" if x != "M" else "A"].my_peer.mid
+
+        def listing() -> dict:
+            return {k: sorted((n.public_key.key_to_bin(), tuple(n.address)) for n in v)
+                    for k, v in s_ov.store.items() if v}
+
+        before = listing()
+        verdict, why = tokens.judge(token, tuple(src), pk, now())
+        ident += 1
+        net.inject(src, s_addr, o.ezr_pack(StorePeerRequestPayload.msg_id,
+                                           StorePeerRequestPayload(ident, token, target)))
+        net.flush()
+        after = listing()
+        case = f"store-peer-request from {x} at {src[0]} with token '{token_choice}' ({why}) after {rotations} " \
+               f"rotation(s), target = {'its own mid' if target_choice == 'own' else 'the mid of another peer'}"
+        viol = []
+        if after != before:
+            if verdict == "reject":
+                viol.append((f"store-peer:applied-with-bad-token:{why}", f"{case}: S registered the peer"))
+            if target_choice != "own":
+                viol.append(("store-peer:foreign-mid-accepted", f"{case}: S registered the peer under a mid that is "
+                                                                "not the requester's"))
+            want = {**before, target: sorted([*before.get(target, []), (pk, tuple(src))])}
+            if verdict != "reject" and target_choice == "own" and after != want:
+                viol.append(("store-peer:wrong-node-registered", f"{case}: S.store went from {len(before)} to "
+                                                                 f"{len(after)} keys, not the requester under its mid"))
+        elif verdict == "accept" and target_choice == "own":
+            viol.append(("store-peer:valid-request-not-applied", f"{case}: S did not register the peer"))
+        return viol, (verdict, why, target_choice, after != before)
+    finally:
+        net.close()
+
+
+def store_peer_chunk(chunk: list) -> list:
+    return [(c, *store_peer_case(_READER_SEED, *c)) for c in chunk]
+
+
+def store_peer_cases() -> list:
+    return [(x, c, t, r) for x in IDENTITIES for c in ("own", *[y for y in IDENTITIES if y != x], "rnd")
+            for t in ("own", "other") for r in (0, 1, 2)]
+
+
+# =====================================================================================================================
 # run / replay
 # =====================================================================================================================
 
 def storage_configs(ctx: core.Ctx) -> list:
     if ctx.thorough:
-        return [(StorageModel(1, (0, 1, 2), (30, 300), (1, 30, 300), ctx.seed), 5),
+        return [(StorageModel(1, (0, 1, 2), (30, 300), (1, 30, 300), ctx.seed), 6),
                 (StorageModel(2, (1, 2), (30, 300), (30, 300), ctx.seed, unsigned=("u0",), alt=False), 5),
                 (StorageModel(1, (1, 2), (30, 300), (1, 30, 300), ctx.seed, unsigned=("u0",), alt=False), 7)]
     return [(StorageModel(1, (0, 1, 2), (30, 300), (1, 30, 300), ctx.seed), 4),
@@ -794,11 +891,25 @@ def run(ctx: core.Ctx) -> core.Report:
                                                              "honest": list(honest), "malicious": list(malicious)}))
     samples.append({"reader_case": {"honest": list(cases[-1][0]), "malicious": list(cases[-1][1])}})
 
+    # part 4
+    sp_cases = store_peer_cases()
+    sp_obs = set()
+    for case, viol, obs in sorted(core.pmap(store_peer_chunk, sp_cases, ctx.jobs, chunk=2), key=lambda r: repr(r[0])):
+        sp_obs.add(obs)
+        for key, what in viol:
+            if key not in seen_keys:
+                seen_keys.add(key)
+                violations.append(core.Violation(key, what, {"part": "store-peer", "seed": ctx.seed,
+                                                             "case": list(case)}))
+    samples.append({"store_peer_case": list(sp_cases[0])})
+
     cov = {
-        "states": states, "transitions": transitions + len(cases),
-        "traces_validated_against_impl": transitions + len(cases),
-        "samples": samples, "exhaustive": exhaustive, "distinct_outcomes": outcomes + len(reader_obs), "runs": runs,
+        "states": states, "transitions": transitions + len(cases) + len(sp_cases),
+        "traces_validated_against_impl": transitions + len(cases) + len(sp_cases),
+        "samples": samples, "exhaustive": exhaustive,
+        "distinct_outcomes": outcomes + len(reader_obs) + len(sp_obs), "runs": runs,
         "reader_cases": len(cases), "reader_distinct_reports": len(reader_obs),
+        "store_peer_cases": len(sp_cases), "store_peer_distinct_outcomes": len(sp_obs),
         "explanation": "states = distinct abstract states (storage contents with ages [+ clock, token epoch, tokens "
                        "held, S's routing members for the community part]); transitions = events executed on the real "
                        "code, each followed by the reference comparison and (community part) a find_values by the "
@@ -816,7 +927,8 @@ ASSUMPTIONS = [
     "within the limits and verifiable",
     "tokens presented are the ones obtained by token-fetch events (find-requests) or 20 fixed bytes; S's rate limiter "
     "(10 queries / 5 s per node) is never reached within the depth bound (asserted on every transition)",
-    "store-peer requests of DHTDiscoveryCommunity (dht/discovery.py) are not driven",
+    "store-peer requests (dht/discovery.py) are checked one request at a time (token x requester x target x 0-2 "
+    "rotations), not in histories",
     "community part: only S is introduced to A, M and R (no third-party caches); the reader part covers two responders",
 ]
 
@@ -825,6 +937,9 @@ def replay(ctx: core.Ctx, data: dict) -> list:
     part = data.get("part")
     if part == "reader":
         v, _ = reader_case(data["seed"], tuple(data["honest"]), tuple(data["malicious"]))
+        return [core.Violation(k, what) for k, what in v]
+    if part == "store-peer":
+        v, _ = store_peer_case(data["seed"], *data["case"])
         return [core.Violation(k, what) for k, what in v]
     model = StorageModel.from_params(data) if part == "storage" else CommunityModel(data["alphabet"], data["seed"])
     hist = [tuple(e) for e in data["history"]]
